@@ -706,6 +706,10 @@ func (a *ptsTo) genExternal(f *ssa.Function, ci ssa.CallInstruction, name string
 			a.store(a.resultNode(ci, 0), an[0])
 			a.copy(a.resultNode(ci, 0), an[0]) // NewBuffer takes ownership of buf: writes to the buffer may write buf
 		}
+	case hasPrefixAny(name, "bytes.Trim", "bytes.Split", "bytes.Fields", "bytes.Cut", "bytes.SplitN", "bytes.SplitAfter"):
+		// these return sub-slices of their first argument
+		freshResults()
+		resultsAliasArgs(false)
 	case hasPrefixAny(name, "bytes."):
 		freshResults()
 	case name == "encoding/xml.NewDecoder", name == "encoding/json.NewDecoder", name == "encoding/gob.NewDecoder",
@@ -772,7 +776,13 @@ func (a *ptsTo) genExternal(f *ssa.Function, ci ssa.CallInstruction, name string
 	case hasPrefixAny(name, "io.ReadAll", "io.ReadFull", "io.WriteString", "io.Copy"):
 		freshResults()
 	case name == "(*sync.Pool).Get":
+		// what Get hands out is what some Put stored, or what New made: in both cases an object the pool may hold again
 		a.load(a.resultNode(ci, 0), a.node(c.Args[0]))
+		o := a.fresh(in, nil, "object taken from a sync.Pool at "+a.p.Pos(in.Pos()))
+		tmp := a.newNode()
+		a.addObj(tmp, o)
+		a.copy(a.resultNode(ci, 0), tmp)
+		a.store(a.node(c.Args[0]), tmp)
 	case name == "(*sync.Pool).Put":
 		an := a.argNodes(c)
 		if len(an) > 1 && an[1] >= 0 {
